@@ -1938,7 +1938,20 @@ pub fn generate(seed: u64, focus: Focus, faults: bool) -> RunDesc {
         relation: rel.to_string(),
         hash_key: if rel == "H5" { hash_key } else { var_rng.next_u64() },
         decoy: if var_rng.chance(1, 3) { var_rng.range(1, 4) as u32 } else { 0 },
-        ops: make_variant(&mut var_rng, rel, &ops),
+        ops: {
+            let mut vops = make_variant(&mut var_rng, rel, &ops);
+            // without reference cycles (where the place of the Box depends on which
+            // definition is met first) and without name-sharing shapes, the pairs of
+            // ONE add_ref_types call are independent additions too: H1 permutes them
+            if rel == "H1" && sw.cycles == 0 && !sw.awkward && !sw.inline && var_rng.chance(1, 2) {
+                for op in vops.iter_mut() {
+                    if let Op::AddRefTypes { defs, .. } = op {
+                        var_rng.shuffle(defs);
+                    }
+                }
+            }
+            vops
+        },
     });
 
     RunDesc {
